@@ -126,3 +126,41 @@ Definition init_cpu_blob_attr (repaired : bool) (cpu_dir_st : Z) (blob_ok attr_o
     error message iff the status is not success *)
 Definition status_msg_ok (r : Z * bool) : bool :=
   kdump_doc (fst r) && Bool.eqb (negb (fst r =? KDUMP_OK)) (snd r).
+
+(** the same contract for libaddrxlat's own entry points *)
+Definition ax_status_msg_ok (r : Z * bool) : bool :=
+  addrxlat_doc (fst r) && Bool.eqb (negb (fst r =? ADDRXLAT_OK)) (snd r).
+
+(** the public libaddrxlat functions that return a status and work on a
+    context, and how each of them clears the context's error string
+    (transcribed from src/addrxlat/step.c and sys.c; the check scans the
+    sources and compares):
+      [ClearsFirst]: clear_error() before anything that can return;
+      [ClearsVia e]: starts by handing over to entry point [e];
+      [SetsOnly]:    addrxlat_ctx_err, the public set_error (never clears). *)
+Inductive ax_entry :=
+| AxLaunch | AxStep | AxWalk | AxSysOsInit | AxOp | AxFulladdrConv | AxCtxErr.
+
+Inductive ax_clearing := ClearsFirst | ClearsVia (e : ax_entry) | SetsOnly.
+
+Definition ax_clears (e : ax_entry) : ax_clearing :=
+  match e with
+  | AxLaunch => ClearsFirst        (* addrxlat_launch: clear_error(step->ctx); *)
+  | AxStep => ClearsFirst          (* addrxlat_step:   clear_error(step->ctx); *)
+  | AxWalk => ClearsFirst          (* addrxlat_walk:   clear_error(step->ctx); *)
+  | AxSysOsInit => ClearsFirst     (* addrxlat_sys_os_init: clear_error(ctx); *)
+  | AxOp => ClearsFirst            (* addrxlat_op:     clear_error(ctl->ctx); *)
+  | AxFulladdrConv => ClearsVia AxOp   (* return internal_op(&opctl, faddr); *)
+  | AxCtxErr => SetsOnly
+  end.
+
+Definition ax_entries : list ax_entry :=
+  [AxLaunch; AxStep; AxWalk; AxSysOsInit; AxOp; AxFulladdrConv; AxCtxErr].
+
+(** does a call of this entry point start from a cleared error string? *)
+Fixpoint ax_starts_clear (fuel : nat) (e : ax_entry) : bool :=
+  match ax_clears e with
+  | ClearsFirst => true
+  | SetsOnly => false
+  | ClearsVia e' => match fuel with O => false | S f => ax_starts_clear f e' end
+  end.
